@@ -487,3 +487,152 @@ Section Attrs.
     split; [exact (traverse_forall2b _ _ xopt_ok _ _ C)|]. exists n. exact A2.
   Qed.
 End Attrs.
+
+(* ------------------------------------------------------------------------------------------ *)
+(* co-export of the testbench hierarchies: what a successful run adds to the package           *)
+(* ------------------------------------------------------------------------------------------ *)
+Lemma xmod_eq id name kids st :
+  xmod (HMod id name kids) st =
+  if existsb (fun e => N.eqb (fst e) id) (done st) then Ok st
+  else if mem_str name (reserved st) then Error EName
+  else st2 <- seq_fold xmod kids {| reserved := name :: reserved st; done := done st |} ;;
+       Ok {| reserved := reserved st2; done := done st2 ++ [(id, name)] |}.
+Proof. reflexivity. Qed.
+
+Record grows (st st' : pst) (src : list (N * string)) (added : list (N * string)) : Prop := {
+  g_done : done st' = done st ++ added;
+  g_res : forall x, In x (reserved st') <-> In x (pkg_names added) \/ In x (reserved st);
+  g_nodup : NoDup (pkg_names added);
+  g_fresh : forall x, In x (pkg_names added) -> ~ In x (reserved st);
+  g_src : incl added src }.
+
+Definition mod_grows (m : hmod) : Prop :=
+  forall st st', xmod m st = Ok st' ->
+    exists added, grows st st' (flat_mods m) added /\ exists nm, In (mod_id m, nm) (done st').
+Definition mods_grow (l : list hmod) : Prop :=
+  forall st st', seq_fold xmod l st = Ok st' ->
+    exists added, grows st st' (flat_map flat_mods l) added /\ forall m, In m l -> exists nm, In (mod_id m, nm) (done st').
+
+Lemma mods_grow_of l : Forall mod_grows l -> mods_grow l.
+Proof.
+  induction 1 as [|m l Hm _ IH]; intros st st' H.
+  - simpl in H. inversion H; subst. exists []. split; [|intros m []].
+    constructor; simpl; [symmetry; apply app_nil_r|tauto|constructor|tauto|intros x []].
+  - rewrite seq_fold_cons in H. inv_bind H. rename r into sa.
+    destruct (Hm _ _ E) as [a1 [G1 [nm1 M1]]]. destruct (IH _ _ H) as [a2 [G2 M2]].
+    destruct G1 as [D1 R1 N1 F1 S1]. destruct G2 as [D2 R2 N2 F2 S2].
+    exists (a1 ++ a2). split.
+    + constructor.
+      * rewrite D2, D1, app_assoc. reflexivity.
+      * intros x. unfold pkg_names. rewrite map_app, in_app_iff. fold (pkg_names a1). fold (pkg_names a2).
+        rewrite R2, R1. tauto.
+      * unfold pkg_names. rewrite map_app. apply nodup_app; [exact N1|exact N2|].
+        intros x H1 H2. apply (F2 x H2). apply R1. left. exact H1.
+      * intros x. unfold pkg_names. rewrite map_app, in_app_iff. intros [Hx|Hx]; [apply F1; exact Hx|].
+        intros Hr. apply (F2 x Hx). apply R1. right. exact Hr.
+      * simpl. apply incl_app; [apply incl_appl; exact S1|apply incl_appr; exact S2].
+    + intros m' [<-|Hin]; [|apply M2; exact Hin]. exists nm1. rewrite D2. apply in_or_app. left. exact M1.
+Qed.
+
+Lemma xmod_grows m : mod_grows m.
+Proof.
+  induction m as [id name kids IHk] using hmod_ind'. intros st st' H. rewrite xmod_eq in H.
+  destruct (existsb (fun e => N.eqb (fst e) id) (done st)) eqn:EX.
+  - inversion H; subst. exists []. split.
+    + constructor; simpl; [symmetry; apply app_nil_r|tauto|constructor|tauto|intros x []].
+    + apply existsb_exists in EX. destruct EX as [[i nm] [Hin Hi]]. simpl in Hi. apply N.eqb_eq in Hi. subst.
+      exists nm. exact Hin.
+  - destruct (mem_str name (reserved st)) eqn:EM; [discriminate|].
+    assert (NR : ~ In name (reserved st)). { intros Hn. apply mem_str_In in Hn. congruence. }
+    inv_bind H. rename r into st2. inversion H; subst. clear H.
+    destruct (mods_grow_of _ IHk _ _ E) as [ak [[D R N F S] _]]. simpl in D, R, F.
+    exists (ak ++ [(id, name)]). split.
+    + constructor; simpl.
+      * rewrite D, app_assoc. reflexivity.
+      * intros x. unfold pkg_names. rewrite map_app, in_app_iff. fold (pkg_names ak). rewrite R. simpl. tauto.
+      * unfold pkg_names. rewrite map_app. apply nodup_app; [exact N|simpl; constructor; [intros []|constructor]|].
+        intros x Hx [<-|[]]. apply (F _ Hx). left. reflexivity.
+      * intros x. unfold pkg_names. rewrite map_app, in_app_iff. intros [Hx|[<-|[]]]; [|exact NR].
+        intros Hr. apply (F _ Hx). right. exact Hr.
+      * apply incl_app; [apply incl_tl; exact S|]. intros x [<-|[]]. left. reflexivity.
+    + exists name. simpl. apply in_or_app. right. left. reflexivity.
+Qed.
+
+Lemma flat_map_map {A B C} (f : B -> list C) (h : A -> B) l : flat_map f (map h l) = flat_map (fun x => f (h x)) l.
+Proof. induction l as [|x l IH]; simpl; [reflexivity|rewrite IH; reflexivity]. Qed.
+
+Lemma ids_functional_spec U : ids_functional U = true ->
+  forall a b, In a U -> In b U -> fst a = fst b -> snd a = snd b.
+Proof.
+  unfold ids_functional. intros H a b Ha Hb E. rewrite forallb_forall in H. specialize (H a Ha).
+  rewrite forallb_forall in H. specialize (H b Hb). rewrite E, N.eqb_refl in H. simpl in H. apply String.eqb_eq. exact H.
+Qed.
+
+Definition universe (l : list sim) : list (N * string) := flat_map (fun s => flat_mods (tb_mod (s_tb s))) l.
+
+Lemma head_in_flat m : In (mod_id m, mod_name m) (flat_mods m).
+Proof. destruct m. simpl. left. reflexivity. Qed.
+
+Lemma package_ok l st : ids_functional (universe l) = true ->
+  seq_fold xmod (map (fun s => tb_mod (s_tb s)) l) {| reserved := []; done := [] |} = Ok st ->
+  NoDup (pkg_names (done st)) /\ incl (done st) (universe l) /\
+  forall s, In s l -> In (mod_id (tb_mod (s_tb s)), mod_name (tb_mod (s_tb s))) (done st).
+Proof.
+  intros HF H.
+  assert (G : mods_grow (map (fun s => tb_mod (s_tb s)) l)).
+  { apply mods_grow_of. apply Forall_forall. intros m _. apply xmod_grows. }
+  destruct (G _ _ H) as [added [[D R N F S] M]]. simpl in D. subst added.
+  rewrite flat_map_map in S. fold (universe l) in S.
+  split; [exact N|]. split; [exact S|]. intros s Hs.
+  destruct (M (tb_mod (s_tb s))) as [nm Hn]. { apply in_map_iff. exists s. split; [reflexivity|exact Hs]. }
+  assert (HU : In (mod_id (tb_mod (s_tb s)), mod_name (tb_mod (s_tb s))) (universe l)).
+  { unfold universe. apply in_flat_map. exists s. split; [exact Hs|apply head_in_flat]. }
+  pose proof (ids_functional_spec _ HF _ _ (S _ Hn) HU eq_refl) as E. simpl in E. subst. exact Hn.
+Qed.
+
+Lemma tb_rel_ok t o : o_top o = mod_name (tb_mod t) -> NoDup (pkg_names (o_pkg o)) ->
+  In (mod_id (tb_mod t), mod_name (tb_mod t)) (o_pkg o) -> tb_rel t o = true.
+Proof.
+  intros ET ND Hin. unfold tb_rel. rewrite ET, String.eqb_refl. simpl.
+  rewrite (count_nodup _ _ ND).
+  - simpl. apply existsb_exists. exists (mod_id (tb_mod t), mod_name (tb_mod t)). split; [exact Hin|].
+    simpl. rewrite N.eqb_refl, String.eqb_refl. reflexivity.
+  - unfold pkg_names. apply in_map_iff. exists (mod_id (tb_mod t), mod_name (tb_mod t)). split; [reflexivity|exact Hin].
+Qed.
+
+Section Export.
+  Variable frel : Z -> Z -> fnum -> bool.
+  Variable g : fnum -> fnum.
+  Hypothesis Hg : forall m e, frel m e (g (FDec m e)) = true.
+
+  Lemma export_one_rel pkg s o : NoDup (pkg_names pkg) ->
+    In (mod_id (tb_mod (s_tb s)), mod_name (tb_mod (s_tb s))) pkg ->
+    export_one pkg s = Ok o ->
+    one_scalar_port (tb_ports (s_tb s)) = true /\ o_pkg o = pkg /\ rel frel s (map_si g o) = true.
+  Proof.
+    intros ND Hin H. unfold export_one in H. destruct (one_scalar_port (tb_ports (s_tb s))) eqn:EP; simpl in H; [|discriminate].
+    inv_bind H. destruct r as [[os ans] cs]. inversion H; subst. clear H. split; [reflexivity|]. split; [reflexivity|].
+    destruct (xattrs_rel frel g Hg _ _ _ _ _ E) as [A [B [C [n D]]]].
+    unfold rel. cbn [map_si o_top o_pkg o_opts o_an o_ctrls].
+    rewrite A, B, C, D. rewrite tb_rel_ok; [|reflexivity|exact ND|exact Hin]. simpl.
+    apply nodupb_NoDup, auto_names_nodup.
+  Qed.
+
+  Lemma export_all_rel l outs : ids_functional (universe l) = true -> export_all l = Ok outs ->
+    forallb (fun s => one_scalar_port (tb_ports (s_tb s))) l = true /\
+    forall2b (rel frel) l (map (map_si g) outs) = true.
+  Proof.
+    intros HF H. unfold export_all in H. inv_bind H. rename r into st.
+    destruct (package_ok _ _ HF E) as [ND [_ M]].
+    assert (G : forall l', incl l' l -> forall outs', traverse (export_one (done st)) l' = Ok outs' ->
+              forallb (fun s => one_scalar_port (tb_ports (s_tb s))) l' = true /\
+              forall2b (rel frel) l' (map (map_si g) outs') = true).
+    { induction l' as [|s l' IH]; intros Hi outs' HT; simpl in HT.
+      - inversion HT; subst. split; reflexivity.
+      - inv_bind HT. inv_bind HT. inversion HT; subst.
+        destruct (export_one_rel _ _ _ ND (M s (Hi s (or_introl eq_refl))) E0) as [P [_ R]].
+        destruct (IH (fun x Hx => Hi x (or_intror Hx)) _ E1) as [P' R'].
+        simpl. rewrite P, P', R, R'. split; reflexivity. }
+    apply (G l (incl_refl l) outs H).
+  Qed.
+End Export.
